@@ -31,7 +31,7 @@ def c12_jobs(rng, quick):
         for lv in list(range(9)) + list(range(8, -1, -1)):
             add("pdf", c, (lv,))
     for c in (b"Aztec", b"x" * 30):
-        for pct in (0, 50, 10, 90, 23, 33, 5, 75):
+        for pct in (0, 50, 10, 90, 23, 33, 5, 75, 100, 150, 255, 256, 257, 300, 512, 1000):
             add("aztec", c, (pct, 0))
             add("aztec", c, (pct, 4))
     for lv in range(9):
